@@ -110,6 +110,11 @@ var c02Images = []c02Img{
 	{64, 192, "bandsH", "binary"}, {48, 16, "bandsV", "binary"},
 }
 
+// c02Views: the same kinds of picture handed over as views whose bounds do not start at (0,0)
+// ("@" + one of C19's placements): what the file declares must be the picture's size, not where
+// it was stored. (C02 only; the other checks that borrow c02Images build their own storage forms.)
+var c02Views = []c02Img{{17, 17, "noise", "anoise@sub35"}, {33, 7, "c4", "opaque@negorigin"}, {16, 16, "noise", "binary@genericSub"}}
+
 type c02Case struct {
 	Img  c02Img
 	Dev  map[string]int // field name -> menu index (non-default picks)
@@ -327,9 +332,14 @@ func cmpPlanes(ref *image.YCbCr, y, cb, cr []byte, ys, cs, w, h int) string {
 }
 
 func (cs *c02Case) run() string {
-	src := imgs.Make(cs.Img.W, cs.Img.H, cs.Img.Content, cs.Img.Alpha, cs.Seed)
+	alpha, how, _ := strings.Cut(cs.Img.Alpha, "@")
+	src := imgs.Make(cs.Img.W, cs.Img.H, cs.Img.Content, alpha, cs.Seed)
+	var given image.Image = src
+	if how != "" {
+		given, _ = place(src, how)
+	}
 	o := cs.opts()
-	data, err, p := encode(src, o)
+	data, err, p := encode(given, o)
 	if p != "" {
 		return "Encode panicked: " + first(p)
 	}
@@ -352,9 +362,9 @@ func init() {
 			return 3
 		},
 		func(e *fw.Env) func(c *choice.Ctx) caseI {
-			images := c02Images
+			images := append(append([]c02Img{}, c02Images...), c02Views...)
 			if !e.Quick() {
-				images = c02Images[:8] // bound 3 on a reduced picture set
+				images = append(append([]c02Img{}, c02Images[:8]...), c02Views[0]) // bound 3 on a reduced picture set
 			}
 			return func(c *choice.Ctx) caseI {
 				cs := &c02Case{Seed: e.Seed, Dev: map[string]int{}}
